@@ -8,7 +8,7 @@ LEVEL = "other"
 def run(rep, tier, seed):
     from checks import syntactic
     syntactic.run(rep, "C09")
-    proved_tier(rep, "C09", seed, expected_min_obligations=1)
+    proved_tier(rep, "C09", seed, expected_min_obligations=40)
     bounded_C09.run(rep, tier, seed)
 
 
